@@ -26,7 +26,7 @@ class BaseCore : public InlineCore {
 
   bool Empty() const noexcept {
     auto callback = _callback.load(std::memory_order_acquire);
-    return callback == kEmpty;
+    return callback != kResult;
   }
 
   template <bool Shared>
